@@ -42,6 +42,34 @@ static void run(const proto::request& r)
         st = proto::guarded(
             [&] { out = set_bit<T>(r.u64("v"), n, r.u64("b") != 0); });
     }
+    else if(op == "seq")
+    {
+        // a whole history of setter calls on ONE set object
+        const std::string ops = r.str("ops");
+        st = proto::guarded(
+            [&]
+            {
+                set_t<T> s{static_cast<T>(r.u64("v"))};
+                std::size_t i = 0;
+                while(i < ops.size())
+                {
+                    std::size_t colon = ops.find(':', i);
+                    std::size_t comma = ops.find(',', i);
+                    if(comma == std::string::npos)
+                    {
+                        comma = ops.size();
+                    }
+                    const unsigned idx = static_cast<unsigned>(
+                        std::stoul(ops.substr(i, colon - i)));
+                    const bool b = ops.substr(colon + 1, comma - colon - 1) != "0";
+                    s(sbepp::detail::set_bit_tag{},
+                      static_cast<sbepp::choice_index_t>(idx),
+                      b);
+                    i = comma + 1;
+                }
+                out = *s;
+            });
+    }
     else if(op == "getsum" || op == "setsum")
     {
         const bool b = r.u64("b") != 0;
